@@ -130,3 +130,129 @@ def r02_8(ctx, repo):
 
 
 FIXTURE = None
+
+
+# -----------------------------------------------------------------------------
+# R02.10 — a delegating wrapper hands every shared argument on
+# -----------------------------------------------------------------------------
+# (wrapper class, method, parameter): the wrapper consumes the argument itself
+# and the wrapped model's parameter of the same name has another meaning or
+# no effect.  One reason each.
+NOT_FORWARDED_OK = {
+    ('CovariatePopulationModel', '*', 'covariates'):
+        'the covariates are consumed by the covariate model; the wrapped '
+        'population model receives the covariate-shifted parameters instead',
+    ('CovariatePopulationModel', '*', 'flattened'):
+        'the wrapper needs the unflattened gradient of the wrapped model and '
+        'applies the caller\'s `flattened` itself',
+    ('CovariatePopulationModel', '*', 'reduce'):
+        'the wrapper reduces after adding the covariate model\'s part',
+    ('CovariatePopulationModel', 'sample', 'n_samples'):
+        'one draw per sampled individual: the wrapper loops n_samples times '
+        'with that individual\'s covariate-shifted parameters',
+}
+
+
+def r02_10(ctx, repo):
+    """When a wrapper implements m by calling the wrapped model's m, every
+    parameter the two signatures share reaches the delegate call (as itself
+    or as a value computed from it).  An argument that is no longer passed
+    on silently takes the delegate's default — upstream sensitivities are
+    dropped, a flag is ignored, a seed is not used."""
+    rule = 'R02.10'
+    T = Types(repo)
+    W = wrappers(repo, T)
+    n = 0
+    for cname, fields in sorted(W.items()):
+        c = repo.classes[cname]
+        for mname, fn in sorted(c.methods.items()):
+            if mname.startswith('_') and mname != '__call__':
+                continue
+            calls = [x for x in ast.walk(fn) if _is_deleg(x, mname, fields)]
+            if not calls:
+                continue
+            mine = [a.arg for a in fn.args.args + fn.args.kwonlyargs][1:]
+            # the delegate's signature: any candidate class of the field
+            theirs = set()
+            has_kwargs = False
+            for f in fields:
+                t = next((v for (k, ff), v in T.fields.items()
+                          if ff == f and k in repo.mro(cname)), None)
+                tt = t[1] if t and t[0] == 'list' else t
+                if not tt:
+                    continue
+                for K in T.candidates(tt):
+                    d, dfn = repo.resolve(K, mname)
+                    if dfn is not None:
+                        theirs |= {a.arg for a in dfn.args.args
+                                   + dfn.args.kwonlyargs}
+                        has_kwargs = has_kwargs or dfn.args.kwarg is not None
+            shared = [p for p in mine if p in theirs]
+            if not shared:
+                continue
+            # locals derived from each parameter
+            derived = {p: {p} for p in mine}
+            changed = True
+            while changed:
+                changed = False
+                for a in ast.walk(fn):
+                    if isinstance(a, (ast.Assign, ast.AugAssign)):
+                        tg = a.targets if isinstance(a, ast.Assign) \
+                            else [a.target]
+                        names = {x.id for x in ast.walk(a.value)
+                                 if isinstance(x, ast.Name)}
+                        for t_ in tg:
+                            for x in ast.walk(t_):
+                                if isinstance(x, ast.Name) or (
+                                        isinstance(x, ast.Attribute)):
+                                    key = U(x)
+                                    src = set()
+                                    for nm in names:
+                                        for p, ds in derived.items():
+                                            if nm in ds:
+                                                src.add(p)
+                                    for p in src:
+                                        if key not in derived[p]:
+                                            derived[p].add(key)
+                                            changed = True
+            # loop targets derive from what is iterated
+            for l in ast.walk(fn):
+                if isinstance(l, ast.For):
+                    names = {x.id for x in ast.walk(l.iter)
+                             if isinstance(x, ast.Name)}
+                    for p, ds in derived.items():
+                        if names & ds:
+                            for x in ast.walk(l.target):
+                                if isinstance(x, ast.Name):
+                                    ds.add(x.id)
+            n += 1
+            construct = '%s.%s' % (cname, mname)
+            bad = False
+            used_any = set()
+            for call in calls:
+                used_any |= {U(x) for a in list(call.args) + [
+                    k.value for k in call.keywords] for x in ast.walk(a)
+                    if isinstance(x, (ast.Name, ast.Attribute))}
+            for call in calls[:1]:
+                for p in shared:
+                    # the argument reaches the delegate on some path (other
+                    # paths may reset with the delegate's default)
+                    if derived[p] & used_any:
+                        continue
+                    if (cname, '*', p) in NOT_FORWARDED_OK or (
+                            cname, mname, p) in NOT_FORWARDED_OK:
+                        continue
+                    bad = True
+                    ctx.violation(
+                        rule, repo.loc(call, cname, mname), construct,
+                        'argument not forwarded %s' % p,
+                        '`%s` does not pass `%s` (nor a value computed from '
+                        'it) on to the wrapped model\'s `%s`, which takes an '
+                        'argument of that name: the wrapped model works '
+                        'with its default instead of what the caller asked '
+                        'for' % (U(call)[:60], p, mname))
+            if not bad:
+                ctx.ok(rule, repo.loc(fn, cname, mname), construct,
+                       'every shared argument (%s) reaches the delegate'
+                       % ', '.join(shared))
+    ctx.floor(rule, 30)
